@@ -30,10 +30,11 @@ type Tape struct {
 	Engine   string  `json:"engine"`
 	RunSeed  uint64  `json:"run_seed"`
 	NKDC     int     `json:"nkdc"`
-	LifeS    int64   `json:"life_s"`  // KDC maximum ticket life (short, so that renewals happen in the run)
-	RenewS   int64   `json:"renew_s"` // KDC maximum renewable life (0 = tickets not renewable)
-	Foreign  bool    `json:"foreign"` // a second realm reached by referral
-	Preauth  bool    `json:"preauth"` // the KDC requires pre-authentication
+	LifeS    int64   `json:"life_s"`            // KDC maximum ticket life (short, so that renewals happen in the run)
+	RenewS   int64   `json:"renew_s"`           // KDC maximum renewable life (0 = tickets not renewable)
+	Foreign  bool    `json:"foreign"`           // a second realm reached by referral
+	Preauth  bool    `json:"preauth"`           // the KDC requires pre-authentication
+	GraceS   int64   `json:"grace_s,omitempty"` // the KDC's allowance for expired tickets in a TGS-REQ (RFC 4120 3.2.3)
 	PreLogin bool    `json:"prelogin"`
 	Tasks    []TaskT `json:"tasks"`
 }
@@ -73,7 +74,7 @@ func Gen(caseID, tier string) (json.RawMessage, error) {
 	}
 	r := core.NewRng(n).Derive("c11")
 	tp := Tape{Engine: "c11", RunSeed: n, NKDC: r.Range(1, 3), LifeS: int64(r.PickInt(30, 60, 120, 600)), RenewS: int64(r.PickInt(0, 0, 600, 3600)),
-		Foreign: r.Chance(1, 3), PreLogin: !r.Chance(1, 4), Preauth: r.Chance(1, 2)}
+		Foreign: r.Chance(1, 3), PreLogin: !r.Chance(1, 4), Preauth: r.Chance(1, 2), GraceS: int64(r.PickInt(0, 300))}
 	nt := r.PickInt(2, 2, 3, 4, 6, 8, 12, 16)
 	pool := r.Range(1, 5)
 	modes := []string{"min", "fast", "fast", "mixed", "mixed", "slow"}
